@@ -3,6 +3,7 @@ from lib.facts import norm, origins, direct_place
 from lib.paths import Explorer, call_sequences
 from .common import Recorder, START, END, TIMED_PLUMBING
 
+INLINE = True      # crate-local helpers the rules do not know by name are inlined into their callers (lib/inline.py)
 EXPLANATION = (
     "Static region/ordering analysis over MIR (drop-elaborated, no inlining). R02.1: for every pair of "
     "UntaggedTimestamp::start -> ::end calls in any body, every terminator on every normal CFG path between them is "
